@@ -16,6 +16,7 @@ EXPLANATION = ("Static rules over models/evse.py and the info cache of charging_
                "stored as sorted(set(input) + {0}); every mutation of the EVSE table refreshes the advertised-limit cache, "
                "whose four fields are built in station order from the like-named EVSE properties."
                ' Added in round 3: decision table of set_pilot, writers of the occupant and callers of the EVSE-level unplug() are confined, nothing handed to a scheduler aliases the advertised-limit cache (escape analysis shared with C05), per-station accessor table.')
+EXPLANATION += ' Added in rounds 4-5: every normally returning path of set_pilot has asked the validity predicate; guard-clause validity predicates are read as the boolean expression they compute; station-order round trip; nothing advertised comes from a memo on the interface.'
 NOT_DECIDED = "floating-point acceptance at specific boundary values"
 
 CONCRETE = ("EVSE", "DeadbandEVSE", "FiniteRatesEVSE")
